@@ -92,6 +92,14 @@ def cases(tier, rng):
         dt = rng.choice(_DTYPES if min(elv) >= 0 else _DTYPES[:4])
         yield {"k": 1502 if via == "kernel" else 1500, "args": [ds, sq, elv, _w(dt)],
                "call": {"op": 1502, "dtype": dt, "via": via}, "group": f"adjust-rand-{via}" + ("-unsigned" if dt in _WRAP else "")}
+    # confluences of many cells (an inland pit fed by all eight neighbours and more): every one of them is conditioned
+    for ktrib in (7, 8, 9, 12):
+        for rep in range(3 if tier == "quick" else 12):
+            ds = [0] + [0] * ktrib + [rng.randint(1, ktrib) for _ in range(4)]
+            elv = [rng.randint(3, 6)] + [rng.randint(0, 9) for _ in range(ktrib + 4)]
+            for via in ("raster", "vector"):
+                dt = rng.choice(_DTYPES)
+                yield {"k": 1500, "args": [ds, nets.topo_order(ds), elv, _w(dt)], "call": {"op": 1502, "dtype": dt, "via": via}, "group": "adjust-wide-confluence"}
     # D4 digging
     for t in range(250 if tier == "quick" else 3000):
         nr, nc = rng.randint(2, 7), rng.randint(2, 7)
